@@ -273,3 +273,21 @@ func withDefaultGoMod(module string, files map[string]string) map[string]string 
 	}
 	return m
 }
+
+// F9Probe is the fixed history of known finding F9 (DESIGN §7): generate, replace the body of
+// the first output (everything after its two header lines) by garbage, regenerate in the
+// settled file-age regime. C09 and C16 run it on every invocation so that the KNOWN-FINDING
+// line is printed exactly as long as the finding exists.
+func F9Probe() *History {
+	spec := &LSpec{UserPkgs: map[string]string{}, PkgNames: map[string]string{"a": "a"},
+		Convs: []LConv{{Dir: "a", File: "conv.go", Kind: "interface", Name: "Ka", Version: 1}, {Dir: "a", File: "conv.go", Kind: "variables", Name: "Lo", Version: 1}}}
+	w := spec.World("f9-probe")
+	g := func() *GenSpec {
+		return &GenSpec{Plan: planIdentity(), Spec: spec, Expect: "ok", Canon: w.Patterns, Globals: []string{}}
+	}
+	return &History{World: w, Ops: []Op{
+		genOp(g()),
+		{Kind: "corrupt", Label: "Corrupt", Content: "garbage", N: 0, Path: "0"},
+		genOp(g()),
+	}}
+}
